@@ -843,6 +843,12 @@ def probe_facts(w, inv):
     f['lockfile'] = os.path.exists(os.path.join(w.sb.repo, 'agentpack.lock.json'))
     f['cfg_exists'] = os.path.exists(os.path.join(w.sb.repo, 'agentpack.yaml'))
     f['git_repo'] = os.path.exists(os.path.join(w.sb.repo, '.git'))
+    if f['git_repo']:
+        env = w.sb.env({'GIT_OPTIONAL_LOCKS': '0'})
+        p = subprocess.run(['git', 'status', '--porcelain'], cwd=w.sb.repo, env=env, stdout=subprocess.PIPE, stderr=subprocess.PIPE)
+        f['git_dirty'] = bool(p.stdout.strip())
+    else:
+        f['git_dirty'] = False
     return f
 
 # --------------------------------------------------------------------------- executing invocations
